@@ -400,6 +400,7 @@ func CheckK(prop string, witnesses []string) func(r *Report) {
 		}
 		if prop == "C01" {
 			c01Large(r)
+			c01AWS(r)
 		}
 	}
 }
@@ -724,5 +725,9 @@ func CheckC20(r *Report) {
 		r.AddK(kr, []string{"C20.hit-probe", "C20.refresh-probe", "C20.unwrap-log-checked"})
 		r.DistinctNontrivial += kr.Counters["C20.hit-probe"] + kr.Counters["C20.refresh-probe"] + kr.Counters["C20.nocache-probe"]
 		r.Evaluations += kr.Counters["C20.hit-probe"] + kr.Counters["C20.refresh-probe"] + kr.Counters["C20.nocache-probe"]
+	}
+	if r.TimeLeft() {
+		c20Sched(r)
+		r.Rule += " || PLUS schedules: two goroutines of one factory hit a stale system key / a stale shared intermediate key together (every interleaving up to the preemption bound): one KMS unwrap and one record read per key"
 	}
 }
